@@ -238,6 +238,9 @@ def make_linprog(real_linprog, validate=False):
         n, m = A.shape
         if len(c_arr) != m or len(b) != n:
             raise ValueError("linprog stub: inconsistent dimensions")
+        if m == 0:
+            # scipy refuses a problem without variables ("Invalid input for linprog: c must be a 1-D array ...")
+            raise ValueError("Invalid input for linprog (stub): the problem has no variables")
         Af = [[E.frac(A[i, j]) for j in range(m)] for i in range(n)]
         cf = [E.frac(v) for v in c_arr]
         bz = [E.toz(v) for v in b]
